@@ -209,6 +209,8 @@ def world_for(scn, cfg, stdin_fault=None, verbose=False):
         from .prng import Rng
         Rng(scn["opt_order"] ^ (len(opts) * 2654435761) ^ (1 if cfg.get("quiet") else 0) ^ (hash_cfg(cfg))).shuffle(opts)
     s2["opts"] = opts
+    if scn.get("argv_style") is not None:
+        s2["argv_style"] = (scn["argv_style"] ^ hash_cfg(cfg)) & 0x3FFFFFFF       # each configuration spells the options its own way
     pipe_in = cfg["in"] != "tty"
     s2["tty"] = [0 if cfg["in"] == "pipe" else 1, 0 if cfg["out"] == "pipe" else 1]
     env = dict(cfg.get("debug_env", {}))
